@@ -9,6 +9,8 @@
 #include <vector>
 #include <map>
 #include <type_traits>
+#include <sys/time.h>
+#include <sys/resource.h>
 #include "vf.h"
 
 namespace c20 {
@@ -179,6 +181,19 @@ inline void ref_mul(const R* a, const R* b, R* c, int n) {
 
 // ---------------------------------------------------------------- deterministic "generic points" (fixed constants, NOT seeded)
 inline uint64_t splitmix(uint64_t& s) { uint64_t z = (s += 0x9e3779b97f4a7c15ULL); z = (z ^ (z >> 30)) * 0xbf58476d1ce4e5b9ULL; z = (z ^ (z >> 27)) * 0x94d049bb133111ebULL; return z ^ (z >> 31); }
+
+// ---------------------------------------------------------------- cost accounting
+// CPU seconds (user + system) of all finished worker processes: the wall clock says little on a shared machine
+inline double cpu_children_s() { struct rusage u; getrusage(RUSAGE_CHILDREN, &u); return u.ru_utime.tv_sec + u.ru_stime.tv_sec + 1e-6 * (u.ru_utime.tv_usec + u.ru_stime.tv_usec); }
+struct Sections {
+	double t, c;
+	Sections() : t(vf::now_s()), c(cpu_children_s()) {}
+	void done(const char* name) {
+		vf::setinfo(std::string("seconds.") + name, vf::fmt("%.1f", vf::now_s() - t));
+		vf::setinfo(std::string("cpu_seconds.") + name, vf::fmt("%.1f", cpu_children_s() - c));
+		t = vf::now_s(); c = cpu_children_s();
+	}
+};
 
 // ---------------------------------------------------------------- reporting helpers
 // per-signature throttle: a formula error fails on millions of grid points; keep the first few of each class per worker
